@@ -166,15 +166,51 @@ class PointSequence:
 
 @contract(f"{E}::EcCurve.BatchInverse")
 class BatchInverse:
-  """Shape only (one slot per input); the inverses themselves are decided by bounded/c11.py batch_inverse."""
+  """Montgomery's trick, for every modulus and every list (congruence mode: the body is executed with `% self.mod`
+  dropped, so the running products are the exact integer products): with pp(k) the product of the truthy entries
+  before position k and r = invert(pp(len), mod), every truthy entry satisfies result[k] * values[k] == r * pp(len),
+  which is 1 + mod * invert_k(...) by the definition of the modular inverse - i.e. result[k] is an inverse of values[k]
+  modulo self.mod; falsy entries (None, 0) keep None.  The shape (one slot per input) is what callers assume."""
   params = {"values": "list[Optional[int]]"}
   self_fields = CURVE_FIELDS
   returns = "list[Optional[int]]"
+  congruence_mod = "self.mod"
   requires = CURVE_REQ
   raises = {"ArithmeticError": None}
-  ensures = [("C10,C11,C17", "len(result) == len(values)")]
-  loops = {0: dict(invariant=["len(res) == len(values)"], types={"res": "list[Optional[int]]", "product": "int"}),
-           1: dict(invariant=["len(res) == len(values)"], types={"res": "list[Optional[int]]", "inverse": "int"})}
+  defines = ["ufi('pp', 0) == 1",
+             "forall(k, 0, len(values), ufi('pp', k + 1) == (ufi('pp', k) * values[k] if values[k] else ufi('pp', k)))"]
+  ensures = [("C10,C11,C17", "len(result) == len(values)"),
+             ("C11", "forall(k, 0, len(values), implies(not values[k], result[k] is None))"),
+             ("C11", "forall(k, 0, len(values), implies(values[k], result[k] * values[k] == "
+                     "invert(ufi('pp', len(values)), self.mod) * ufi('pp', len(values))))"),
+             ("C11", "invert(ufi('pp', len(values)), self.mod) * ufi('pp', len(values)) == "
+                     "1 + self.mod * invert_k(ufi('pp', len(values)), self.mod)")]
+  caller_ensures = ["len(result) == len(values)"]
+  loops = {0: dict(invariant=["len(res) == len(values)", ("C11", "product == ufi('pp', i)"),
+                              ("C11", "forall(k, 0, i, implies(values[k], res[k] == ufi('pp', k)))"),
+                              ("C11", "forall(k, 0, len(values), implies(not values[k] or k >= i, res[k] is None))")],
+                   types={"res": "list[Optional[int]]", "product": "int"},
+                   body_end=[("C11", "ufi('pp', _i0 + 1) == (ufi('pp', _i0) * values[_i0] if values[_i0] else "
+                                     "ufi('pp', _i0))")]),
+           1: dict(body_end=[("C11", "let c = i + 1"),      # the index handled by this iteration (i is the next one)
+                             ("C11", "ufi('pp', c + 1) == (ufi('pp', c) * values[c] if values[c] else ufi('pp', c))"),
+                             ("C11", "implies(values[c], by(inverse * ufi('pp', c) == pre_inverse * ufi('pp', c + 1), "
+                                     "inverse == pre_inverse * values[c], ufi('pp', c + 1) == ufi('pp', c) * values[c]))"),
+                             ("C11", "by(inverse * ufi('pp', c) == invert(product, self.mod) * product, "
+                                     "inverse * ufi('pp', c) == pre_inverse * ufi('pp', c + 1), "
+                                     "pre_inverse * ufi('pp', c + 1) == invert(product, self.mod) * product)"),
+                             ("C11", "implies(values[c], by(res[c] * values[c] == pre_inverse * ufi('pp', c + 1), "
+                                     "res[c] == ufi('pp', c) * pre_inverse, ufi('pp', c + 1) == ufi('pp', c) * values[c]))"),
+                             ("C11", "implies(values[c], by(res[c] * values[c] == invert(product, self.mod) * product, "
+                                     "res[c] * values[c] == pre_inverse * ufi('pp', c + 1), "
+                                     "pre_inverse * ufi('pp', c + 1) == invert(product, self.mod) * product))")],
+                   invariant=["len(res) == len(values)",
+                              ("C11", "inverse * ufi('pp', i + 1) == invert(product, self.mod) * product"),
+                              ("C11", "forall(k, 0, i + 1, implies(values[k], res[k] == ufi('pp', k)))"),
+                              ("C11", "forall(k, i + 1, len(values), implies(values[k], res[k] * values[k] == "
+                                      "invert(product, self.mod) * product))"),
+                              ("C11", "forall(k, 0, len(values), implies(not values[k], res[k] is None))")],
+                   types={"res": "list[Optional[int]]", "inverse": "int"})}
   var_types = {"res": "list[Optional[int]]"}
   props = ["C10", "C11", "C17"]
 
